@@ -6,7 +6,18 @@ using namespace Parma_Polyhedra_Library;
 # error "define VT"
 #endif
 typedef BD_Shape<VT> BDS;
+typedef Checked::Extended_Int<WRD_Extended_Number_Policy, VT> EI;
 extern "C" {
+/* read from the code: status flag bits and the encodings of the special values of a matrix entry */
+extern const unsigned ST_EMPTY, ST_CLOSED, ST_REDUCED;
+extern const VT ENC_PINF, ENC_MINF, ENC_NAN, ENC_MIN, ENC_MAX;
+extern const bool POL_HAS_NAN, POL_HAS_INF;
+const unsigned ST_EMPTY = BDS::Status::EMPTY;
+const unsigned ST_CLOSED = BDS::Status::SHORTEST_PATH_CLOSED;
+const unsigned ST_REDUCED = BDS::Status::SHORTEST_PATH_REDUCED;
+const VT ENC_PINF = EI::plus_infinity; const VT ENC_MINF = EI::minus_infinity; const VT ENC_NAN = EI::not_a_number;
+const VT ENC_MIN = EI::min; const VT ENC_MAX = EI::max;
+const bool POL_HAS_NAN = WRD_Extended_Number_Policy::has_nan; const bool POL_HAS_INF = WRD_Extended_Number_Policy::has_infinity;
 void w_closure(const BDS& x) { x.shortest_path_closure_assign(); }
 void w_reduction(const BDS& x) { x.shortest_path_reduction_assign(); }
 void w_intersection(BDS& x, const BDS& y) { x.intersection_assign(y); }
